@@ -159,7 +159,7 @@ def wrap(rng, sch, levels):
     return sch
 
 
-def topo(rng):
+def topo(rng, decoy_p=0.3):
     """Several use sites in ONE instance (array positions or properties) reach one generic resource G, which holds the $dynamicRef '#N',
     through different intermediate resources; a resource is entered at its root or by a JSON Pointer into its middle ($defs/entry), at
     equal or different stack depths. No python oracle: the real package is compared with the model (proved equal to the Spec's
@@ -214,15 +214,27 @@ def topo(rng):
         site = wrap(rng, Obj([("$ref", enter(chain_[0], mids[0]))]), rng.randint(0, 2))
         sites.append(site)
     decoy = None
-    if rng.random() < 0.3:
+    if rng.random() < decoy_p:
         # a decoy: a resource that declares the anchor and always FAILS, applied where its failure is swallowed (anyOf / not / if).
         # It has left the dynamic scope when the other sites are evaluated; an evaluator that forgets to pop failed frames sees it.
         decoy = k + 1
-        d = Obj([("$id", res_name(decoy)), ("$defs", Obj([("x", target_def("dyn", decoy))])), rng.choice([("not", Obj()), ("const", "never"), ("type", "null")])])
-        bodies[decoy] = d
-        dref = Obj([("$ref", res_name(decoy))])
-        dsite = rng.choice([Obj([("anyOf", [dref, True])]), Obj([("not", dref)]), Obj([("if", dref), ("then", False)]),
-                            Obj([("oneOf", [dref, Obj()])])])
+        if rng.random() < 0.5:
+            d = Obj([("$id", res_name(decoy)), ("$defs", Obj([("x", target_def("dyn", decoy))])), rng.choice([("not", Obj()), ("const", "never"), ("type", "null")])])
+            bodies[decoy] = d
+            dref = Obj([("$ref", res_name(decoy))])
+            dsite = rng.choice([Obj([("anyOf", [dref, True])]), Obj([("not", dref)]), Obj([("if", dref), ("then", False)]),
+                                Obj([("oneOf", [dref, Obj()])])])
+        else:
+            # ... or a resource that SUCCEEDS but swallows failures of several nested frames inside (not / anyOf / if): an evaluator
+            # that pops by count instead of by frame ends up with the resource itself left on the stack
+            inner = rng.choice([Obj([("not", Obj([("allOf", [Obj([("allOf", [False])])])]))]),
+                                Obj([("anyOf", [Obj([("allOf", [Obj([("not", Obj())])])]), True])]),
+                                Obj([("if", Obj([("allOf", [Obj([("allOf", [False])]), True])])), ("else", True)]),
+                                Obj([("not", Obj([("const", "never")]))])])
+            d = Obj([("$id", res_name(decoy)), ("$defs", Obj([("x", target_def("dyn", decoy))]))] + inner.kvs)
+            bodies[decoy] = d
+            dref = Obj([("$ref", res_name(decoy))])
+            dsite = rng.choice([dref, dref, Obj([("allOf", [dref])])])
         sites.insert(rng.choice([0, 0, len(sites)]), dsite)
         nsites += 1
     root = bodies[0]
